@@ -216,6 +216,27 @@ PROPS = {
              "wire trace hash",
         assumptions=["byte-identical re-encoding is not demanded for SACK extensions that are not 8 bytes long (the code documents the 64-bit normalisation)"],
     ),
+    "C14": dict(
+        level="exploration",
+        level_text="Wire oracles over three generated families: (1) whole-stack duplex executions with link MTUs 120..9000 per side "
+                   "(equal or different), a silent size black hole and/or EMSGSIZE at sizes anywhere between the protocol minimum "
+                   "and the link MTU, both address families; (2) convergence runs (bulk transfer, nothing lost but oversize "
+                   "datagrams; thorough tier: every path MTU value for the drawn link MTUs); (3) a scripted peer that sends payloads "
+                   "far larger than the local link allows. Checked: every emitted datagram against the sender's link MTU; every "
+                   "first transmission against the size proven at that moment, probes being the newest segment and alone; content "
+                   "(C01 oracles) across failed probes; final segment size equals the largest payload that fits, probe count "
+                   "<= ceil(log2(range)) + 2, transfer complete.",
+        level_note=SIM_NOTE + "; 'proven size' is reconstructed from the wire (largest payload acknowledged to or received by the sender)",
+        technique="runtime monitoring: size/probe-discipline oracle on every datagram + convergence oracle on black-holing simulated paths",
+        budget=dict(quick=240, thorough=3000),
+        require=["c14_datagram_sizes_checked", "c14_first_transmissions_checked", "c14_probes_seen", "c14_probe_splits_seen",
+                 "c14_convergence_cases_checked", "c14_content_reads_checked"],
+        rule="a case is one generated (link MTUs, path limit kind and size, address family, transfer) tuple; non-trivial = more than "
+             "4 first transmissions judged / a convergence verdict reached / more than 4 datagram sizes judged; distinct = distinct "
+             "normalised wire trace",
+        assumptions=["convergence is only promised, and only checked, when probes are lost for size alone (the library cannot tell a congestion loss of a probe from a size loss - its own TODO)",
+                     "path limits are never set below the protocol minimum MTU (576 IPv4 / 1280 IPv6)"],
+    ),
     "C15": dict(
         level="exploration",
         level_text="Invariant monitoring of the real Cubic controller driven through the CongestionController trait with millions of "
